@@ -39,9 +39,20 @@ pub fn scratch() -> PathBuf {
 /// `inputs`: files written into the scratch dir before the run; `outputs`: files read back after it.
 /// In `args`, the token `@name` is replaced by the scratch path of `name`.
 pub fn run(args: &[String], inputs: &[(&str, &[u8])], outputs: &[&str], hash_seed: Option<u64>, horizon: Duration) -> CliOut {
+    run_env(args, inputs, outputs, hash_seed, horizon, false)
+}
+
+/// `stale`: the output paths already exist and hold the (longer) output of an earlier run
+pub fn run_env(args: &[String], inputs: &[(&str, &[u8])], outputs: &[&str], hash_seed: Option<u64>, horizon: Duration, stale: bool) -> CliOut {
     let dir = scratch();
     for (n, b) in inputs {
         let _ = std::fs::write(dir.join(n), b);
+    }
+    if stale {
+        let filler = "]]}} </anterior> CONSUMO, ILU, ELECTRICIDAD, resto de un archivo anterior más largo\n".repeat(1 << 14);
+        for o in outputs {
+            let _ = std::fs::write(dir.join(o), filler.as_bytes());
+        }
     }
     let real: Vec<String> = args.iter().map(|a| if let Some(n) = a.strip_prefix('@') { dir.join(n).to_string_lossy().to_string() } else { a.clone() }).collect();
     let so = std::fs::File::create(dir.join("__stdout")).expect("scratch stdout");
